@@ -308,8 +308,8 @@ def check_curve(prog: Program, rep, rule: str) -> None:
             try:
                 t3 = ev.exec_block([s for s in post if not isinstance(s, ast.Return)], st3, ctx)
                 tail_items = t3.state.heap[out3.oid]['$items'] if isinstance(t3, Leaf) else []
-            except Undecided:
-                tail_items = []
+            except Undecided as exc:
+                raise AnalysisError(f'calculate_curve (tail entry): {exc}') from exc
             ok_tail = False
             if tail_items and isinstance(tail_items[-1], Inst):
                 te = t3.state.heap[tail_items[-1].oid]
